@@ -412,6 +412,26 @@ def translate_cycle_value(fn):
   _fail('`if cycle:` is not the first statement of the evaluation', fn)
 
 
+# ---- Engine._recompute_one_cell: the pending OrderError is re-raised after the user code, for every kind of column ----
+
+def translate_pending_reraise(fn):
+  """`if self._cell_required_error: raise self._cell_required_error` directly in the try body (after the formula OR the
+  trigger formula ran) -> ReraiseAlways; only inside the formula-column branch -> ReraiseFormulaOnly."""
+  is_check = lambda s: (isinstance(s, ast.If) and is_attr(s.test, 'self', '_cell_required_error') and not s.orelse and
+                        len(s.body) == 1 and isinstance(s.body[0], ast.Raise) and
+                        is_attr(s.body[0].exc, 'self', '_cell_required_error'))
+  tr = [t for t in ast.walk(fn) if isinstance(t, ast.Try) and t.body and isinstance(t.body[0], ast.If)
+        and is_name(t.body[0].test, 'cycle')]
+  if len(tr) != 1:
+    _fail('evaluation try block not found', fn)
+  if any(is_check(s) for s in tr[0].body):
+    return 'ReraiseAlways'
+  inner = [n for s in tr[0].body for n in ast.walk(s) if is_check(n)]
+  if inner:
+    return 'ReraiseFormulaOnly'
+  _fail('the pending OrderError is never re-raised after the user code', fn)
+
+
 # ---- Engine._recompute_step: the list that collects (row, previous, value) of a node ---------------------------------
 
 def translate_changes(step):
@@ -491,6 +511,7 @@ def translate_all():
     'on_order_error': translate_on_order_error(loop),
     'cycle_value': translate_cycle_value(ref_method(eng, 'Engine', '_recompute_one_cell')),
     'changes': translate_changes(step),
+    'reraise': translate_pending_reraise(ref_method(eng, 'Engine', '_recompute_one_cell')),
   }
 
 
@@ -516,7 +537,9 @@ def gen_text(t):
     'Definition gen_on_order_error : list loop_op := [%s].' % '; '.join(t['on_order_error']), '',
     '(* Engine._recompute_one_cell(cycle=True) *)', 'Definition gen_cycle_value : value := %s.' % t['cycle_value'], '',
     '(* Engine._recompute_step: where the changes of a node are collected *)',
-    'Definition gen_changes_acquire : changes_acquire := %s.' % t['changes'], ''])
+    'Definition gen_changes_acquire : changes_acquire := %s.' % t['changes'], '',
+    '(* Engine._recompute_one_cell: re-raise of an OrderError that the user code swallowed *)',
+    'Definition gen_pending_reraise : pending_reraise := %s.' % t['reraise'], ''])
 
 
 def regenerate(ctx):
